@@ -622,6 +622,12 @@ def rule_g(ctx):
     ctx.floor(R, 1)
 
 
+def c01_rule_b(ctx):
+    from . import c01
+
+    c01.rule_b(ctx)
+
+
 def run(ctx):
     rule_g(ctx)
     rule_a(ctx)
@@ -638,6 +644,9 @@ def run(ctx):
         f_, img_b_, sem_ = c10.rule_a(ctx_)
         c10.rule_c(ctx_, f_, img_b_, sem_)
     shared(ctx, "C09.e", workflow, why="CoordinateTransformation / TransformationCorrection act on images only through BaseCorrection.__call__")
+    # pulled-back points become source voxels through CoordinateSystem.voxel / coordinate (typed conversions of the point classes): a
+    # correction whose map is the identity returns the input only if these maps follow the axis table in every dimension
+    shared(ctx, "C09.d", c01_rule_b, why="TransformationCorrection.correct_array converts destination voxels and pulled-back points through CoordinateSystem.coordinate / voxel")
     # the conversion of pulled-back points to source voxels must be floor based: shared rule C01.d
     from . import c01
 
